@@ -388,6 +388,36 @@ def reader_sweep(seed, tier):
     return len(inputs), fails
 
 
+def model_monitor(tier, seed):
+    """Assumption monitor of the deku runtime model (engine/diffcheck.py): real deku vs model on the
+    current tree; cached per tree state.  A difference is exit 2 (the model is wrong), never a
+    violation."""
+    import hashlib
+    import diffcheck
+    h = hashlib.sha256()
+    for root in (os.path.join(common.REPO, "libadsb_deku", "src"), os.path.join(common.DEKU_MODEL, "src")):
+        for dp, dn, fn in sorted(os.walk(root)):
+            for n in sorted(fn):
+                with open(os.path.join(dp, n), "rb") as f:
+                    h.update(n.encode() + f.read())
+    n = 20000 if tier == "quick" else 300000
+    key = os.path.join(RESULT_CACHE, "diffcheck-%s-%d-%d.json" % (h.hexdigest()[:32], n, seed or 1))
+    if os.path.exists(key) and os.environ.get("VERIF_NO_CACHE", "") == "":
+        with open(key) as f:
+            r = json.load(f)
+        r["reused_for_identical_tree"] = True
+    else:
+        r = diffcheck.run(n, seed or 1)
+        os.makedirs(RESULT_CACHE, exist_ok=True)
+        if r["differences"] == 0:
+            with open(key, "w") as f:
+                json.dump(r, f)
+    if r["differences"] != 0:
+        raise Undecided("deku model diverges from real deku 0.18.1 on %d of %d frames: %s" % (r["differences"], r["frames"], str(r["first_differences"])[:600]))
+    return {"frames": r["frames"], "differences": 0, "accepted_frames": r["accepted_frames"], "wall_s": r["wall_s"],
+            "reused_for_identical_tree": bool(r.get("reused_for_identical_tree"))}
+
+
 def check_property(pid, tier):
     t0 = time.time()
     seed = int(os.environ.get("VERIF_SEED", "0") or 0)
@@ -407,6 +437,9 @@ def check_property(pid, tier):
                 raise Undecided("assumption monitor %s failed natively: %s" % (o["name"], r.get("text", "")[:500]))
             monitor_notes.append("%s: validated natively on this run (%s)" % (o["name"], o["domain"]))
     jobs = int(os.environ.get("VERIF_JOBS", "14"))
+    monitor = None
+    if any(o["crate"] == "adsb_deku" for o in obls):
+        monitor = model_monitor(tier, seed)
     groups = {}
     for o in obls:
         if pid == "C20":
@@ -588,6 +621,7 @@ def check_property(pid, tier):
             "solver_time_s": round(solver_time, 2),
             "bounded_parts": sorted({h["harness"] + ": " + h["bounded"] for h in per_harness if h["bounded"]}),
             "bounded_native_sweep": sweep_info, "bounded_native_cases": nb_info,
+            "deku_model_monitor": monitor,
             "undecided": undecided, "known_findings_reported": [l for l in lines if l.startswith("KNOWN")],
             "exhaustive": not any(h["bounded"] for h in per_harness),
         },
